@@ -52,6 +52,7 @@ ATOMS = ['a', '\\a', '\\61 ', '\\aaaaaa', '\\abcdef', '\\aa', '\\1f', ' ', '\t',
          '\\"', '(', ')', '[', ']', ',', ', ', '>', ' > ', '-', '--', ':', '*', '|', 'n', '+', '1', '\\', '\\\n', 'a ', ' a', 'é', '.a', '#a',
          ':a', ':is(', ':not(a)', '[a]', '\r\n', '\f']
 TERMS = ['', '!', '|!', '\n', ']', ')', '"', '}']
+SEPS = [',', ' ,', ', ', ' , ', ' ', '  ', '\t', '\n', '/**/', ' /**/ ', '>', ' > ', '+', '~', '|', '=', ' =', '(', ')', ' )', '\r\n']
 
 DOC_SELECTORS = ['[a=x]', '[a~=x]', '[a|=x]', '[a^=x]', '[a$=x]', '[a*=x]', '[a!=x]', '[a~=x i]', '[a$=x i]', '[a*="x y" i]',
                  '[a|=x s]', '[a="x\\a y"]', '[a]', '.x', '.x.y', '#x', '[type=x]', '[a~="x-y"]', '[a*=" "]', '[a$=" x"]']
@@ -146,6 +147,11 @@ def run_unit(u):
                 prefix = c[:cut]
                 pumps = {prefix[-k:] for k in range(1, 9) if len(prefix) >= k}
                 pumps.update(rng.sample(ATOMS, 30) if quick else ATOMS)
+                # composite pumps: two atoms in a row (an escape followed by a separator, a value followed by a comma, ...)
+                for _ in range(16 if quick else 60):
+                    pumps.add(rng.choice(ATOMS) + rng.choice(SEPS))
+                    if rng.random() < .5:
+                        pumps.add(rng.choice(ATOMS) + rng.choice(ATOMS))
                 for pump in pumps:
                     for term in (rng.sample(TERMS, 5) if quick else TERMS):
                         fams.append((prefix, pump, term))
@@ -310,7 +316,7 @@ def replay(w):
 
 def inconclusive(cn, tier):
     out = []
-    if cn.get('families_at_64', 0) < (60000 if tier == 'quick' else 150000):
+    if cn.get('families_at_64', 0) < (100000 if tier == 'quick' else 250000):
         out.append('too few selector families timed: %d' % cn.get('families_at_64', 0))
     if cn.get('doc_families_at_64', 0) < 1000:
         out.append('too few document-side families timed: %d' % cn.get('doc_families_at_64', 0))
